@@ -77,6 +77,9 @@ func NewSchema(config SchemaConfig) (Schema, error) {
 	}
 	// Ensure directive definitions are error-free
 	for _, dir := range schema.directives {
+		if dir == nil {
+			return schema, errors.New("Schema directives must not contain nil.")
+		}
 		if dir.err != nil {
 			return schema, dir.err
 		}
